@@ -51,6 +51,10 @@ func (p *RDP) Unmarshal(b []byte) (map[string]interface{}, error) {
 			return nil, fmt.Errorf("malformed line %d: %s", c, line)
 		}
 	}
+	// the scanner stops at a line it cannot hold, do not pass off the rest as read
+	if err := scanner.Err(); err != nil {
+		return nil, fmt.Errorf("cannot read line %d: %w", c+1, err)
+	}
 	return mp, nil
 }
 
